@@ -166,6 +166,8 @@ class GenChart:
                 return status
             st.__name__ = "%s%d" % (name_prefix, i)
             st.__qualname__ = st.__name__
+            if isinstance(spied, (set, frozenset, list, tuple)):
+                return mhsm.spy_on(st) if i in spied else st       # only some states carry the decorator
             return mhsm.spy_on(st) if spied else st
 
         for i in range(1, self.n + 1):
